@@ -10,10 +10,12 @@ def run(res):
     n = 300 if res.tier == "quick" else 6000
     lib.standard_check(
         res, "c01", n,
-        prop_files=["theories/Properties/C01.v"],
+        prop_files=["theories/Properties/C01.v", "theories/Properties/C01srv.v"],
         model_files=["theories/Rib/Run.v"],
         theorem_note="Properties/C01.v: C01_state_is_fold (for every order function and history: tables = fold of spec_apply over the acknowledgement log), "
-                     "C01_replace_needs_existing, C01_delete_exact(_model), C01_no_trace, C01_oks_are_acked_ids; C01_tree_delete_refuted (v_tree: DELETE label 2^32+100 removes label 100)",
+                     "C01_replace_needs_existing, C01_delete_exact(_model), C01_no_trace, C01_oks_are_acked_ids; C01_tree_delete_refuted (v_tree: DELETE label 2^32+100 removes label 100); "
+                     "Properties/C01srv.v (server level, every history of connects / messages / Flush / Get on any number of sessions): C01_server_frame, C01_server_INV, C01_server_state_is_fold, "
+                     "C01_server_programmed_ids_are_acked, C01_server_only_primary_in_log, C01_server_get_reads_fold",
         trusted=TB,
         assumptions=["RIB-level histories (AddEntry/DeleteEntry/Flush/AddNetworkInstance) called sequentially; the server-level statement is C06/C04's model composed with this one",
                      "a group listing one next-hop twice with different weights is excluded from the generator (the stored weight then depends on Go map order inside protomap)",
